@@ -712,6 +712,17 @@ func c05Run(c *core.Ctx, idx int) {
 		if !twice || pan {
 			return
 		}
+		if idx%2 == 0 {
+			// in between, two unrelated little trees (an unequal pair, then an equal pair) are compared
+			u1 := stackage.And().Push("u", []int{1, 2, 3}, stackage.Cond("uk", stackage.Eq, map[string]int{"a": 1}))
+			u2 := stackage.And().Push("u", []int{1, 2, 4}, stackage.Cond("uk", stackage.Eq, map[string]int{"a": 1}))
+			u3 := stackage.And().Push("u", []int{1, 2, 3}, stackage.Cond("uk", stackage.Eq, map[string]int{"a": 1}))
+			var e12, e13 error
+			if p, _, _ := Guard(func() { e12, e13 = u1.IsEqual(u2), u1.IsEqual(u3) }); p || e12 == nil || e13 != nil {
+				c.Violatef("unrelated-pair", map[string]any{"tree": base}, "between two questions about %s: IsEqual of an unequal little pair returned %v, of an equal one %v (panic %v)", base.Brief(), e12, e13, p)
+			}
+			c.Count("questions.with-unrelated-comparisons-in-between")
+		}
 		err2, pan2, msg2, site2 := eq1(x, y)
 		if pan2 {
 			return err2, pan2, msg2, site2
